@@ -53,6 +53,49 @@ fn main() {
         "c19" => c19::main_c19(tier, seed_from_env()),
         "c20" => c20::main_c20(tier, seed_from_env()),
         "oracle" => oracle::main_oracle(),
+        "classify" => {
+            // classify candidate lines (from the manual) as rule / deromaniser / romaniser by asking the library
+            let cands: Vec<String> = serde_json::from_str(&std::fs::read_to_string(&args[2]).unwrap()).unwrap();
+            let mut o = oracle::Oracle::new(5);
+            let words: Vec<String> = ["ma214.a51", "pa5.a1", "ka.ta", "'a.ma", "san.da", "ha:n", "a"].iter().map(|s| s.to_string()).collect();
+            let mut rules = Vec::new();
+            let mut into = Vec::new();
+            let mut from = Vec::new();
+            for c in cands {
+                let is_ok = |a: oracle::Ans| matches!(a, oracle::Ans::Ok(_));
+                let synt = |a: &oracle::Ans| matches!(a, oracle::Ans::Err(e) if e.contains("Syntax Error"));
+                let a = o.run(&oracle::Req { rules: vec![instance::Group::anon(vec![c.clone()])], words: words.clone(), into: vec![], from: vec![] });
+                if !synt(&a) && !matches!(a, oracle::Ans::Panic | oracle::Ans::Hang) {
+                    rules.push(c.clone());
+                }
+                if is_ok(o.run(&oracle::Req { rules: vec![], words: words.clone(), into: vec![c.clone()], from: vec![] })) {
+                    into.push(c.clone());
+                }
+                if is_ok(o.run(&oracle::Req { rules: vec![], words: words.clone(), into: vec![], from: vec![c.clone()] })) {
+                    from.push(c.clone());
+                }
+            }
+            println!("{}", serde_json::to_string(&serde_json::json!({"doc_rules": rules, "doc_into": into, "doc_from": from})).unwrap());
+            0
+        }
+        "slowrules" => {
+            let d = gen::Data::load();
+            let mut o = oracle::Oracle::new(5);
+            let mut r = prng::Rng::new(3);
+            let words: Vec<String> = (0..40).map(|_| gen::gen_word(&d, &mut r)).collect();
+            let mut all: Vec<String> = d.doc_rules.clone();
+            all.extend(d.test_rules.iter().cloned());
+            all.extend(d.example_rules.iter().cloned());
+            for rule in all {
+                let t = std::time::Instant::now();
+                let a = o.run(&oracle::Req { rules: vec![instance::Group::anon(vec![rule.clone()])], words: words.clone(), into: vec![], from: vec![] });
+                let ms = t.elapsed().as_millis();
+                if ms > 50 || matches!(a, oracle::Ans::Hang | oracle::Ans::Panic) {
+                    println!("{ms:6} ms {:?} {rule}", std::mem::discriminant(&a));
+                }
+            }
+            0
+        }
         "wordstats" => {
             let d = gen::Data::load();
             let mut o = oracle::Oracle::new(5);
@@ -81,7 +124,10 @@ fn main() {
                 let k = match a {
                     oracle::Ans::Ok(_) => "ok".to_string(),
                     oracle::Ans::Err(e) => format!("err: {}", e.lines().next().unwrap_or("").chars().take(60).collect::<String>()),
-                    x => format!("{x:?}"),
+                    x => {
+                        println!("{x:?}: rules {:?} words {:?} into {:?} from {:?}", m.rules.iter().map(|g| g.rule.clone()).collect::<Vec<_>>(), m.words, m.into, m.from);
+                        format!("{x:?}")
+                    }
                 };
                 *tally.entry(k).or_default() += 1;
             }
